@@ -192,6 +192,47 @@ def relabel (cmd : Cmd) (c : Choice) : Choice :=
   (c.zip (cmd.swaps ++ List.replicate c.length false)).map fun (v, sw) =>
     if sw then (if v == 0 then 1 else if v == 1 then 0 else v) else v
 
+mutual
+/-- does evaluating this expression change a variable (or call something)? -/
+def hasSideEffect : Node → Bool
+  | .assign .. => true
+  | .unop op e => op == "++" || op == "--" || op == "p++" || op == "p--" || hasSideEffect e
+  | .funcCall .. => true
+  | .binop _ l r => hasSideEffect l || hasSideEffect r
+  | .cast e => hasSideEffect e
+  | .ternary c t f => hasSideEffect c || hasSideEffect t || hasSideEffect f
+  | .arrayRef n s => hasSideEffect n || hasSideEffect s
+  | .exprList es => hasSideEffectL es
+  | .other _ _ ks => hasSideEffectL ks
+  | _ => false
+def hasSideEffectL : List Node → Bool
+  | [] => false
+  | n :: ns => hasSideEffect n || hasSideEffectL ns
+end
+
+def hasSideEffectO : Option Node → Bool
+  | none => false
+  | some n => hasSideEffect n
+
+mutual
+/-- does evaluating this expression assign to a variable (`=`, `op=`, `++`, `--`)?  Calls are
+    not counted: C passes by value, a call cannot change a local variable of the caller. -/
+def changesVariable : Node → Bool
+  | .assign .. => true
+  | .unop op e => op == "++" || op == "--" || op == "p++" || op == "p--" || changesVariable e
+  | .funcCall _ (some a) => changesVariable a
+  | .binop _ l r => changesVariable l || changesVariable r
+  | .cast e => changesVariable e
+  | .ternary c t f => changesVariable c || changesVariable t || changesVariable f
+  | .arrayRef n s => changesVariable n || changesVariable s
+  | .exprList es => changesVariableL es
+  | .other _ _ ks => changesVariableL ks
+  | _ => false
+def changesVariableL : List Node → Bool
+  | [] => false
+  | n :: ns => changesVariable n || changesVariableL ns
+end
+
 /-- operand of a supported binary operation: identifier or constant, casts transparent -/
 def atomOf (n : Node) : Option Atom :=
   match n.rmCast with
@@ -256,6 +297,12 @@ def desugar : Node → Option Cmd
     | _ => none
   | .compound none => some .skip
   | .compound (some l) => (desugarL l).map .seq
+  | .label _ st => desugar st                  -- a label is only a marker
+  | .exprList es => (desugarL es).map .seq     -- comma expression: evaluated in order
+  | .cast e => desugar e                        -- a cast is transparent
+  | .id _ => some .skip                         -- effect-free expression statements
+  | .const .. => some .skip
+  | n@(.binop ..) => if hasSideEffect n then none else some .skip
   | _ => none
 def desugarL : List Node → Option (List Cmd)
   | [] => some []
